@@ -328,6 +328,9 @@ def run_case(case, ctx):
              # every group empty (the requested clusters have no spike): the union is empty, not an error
              {k0: np.array([], dtype=np.int64), k0 + 1: np.array([], dtype=np.int64)}, {k0: np.array([])},
              {k0: np.array([], dtype=np.int64), k0 + 1: shuffled[k0]}]
+    # groups of different integer widths (a narrow first group, wider ids later) and an empty float group after an integer one
+    forms.append({k0: np.array([3, 1, 2], dtype=np.uint16), k0 + 1: np.array([70000, 65536, 2], dtype=np.uint32)})
+    forms.append({k0: shuffled[k0], k0 + 1: np.array([])})
     if n >= 6:
         # groups that are overlapping windows of ONE id array whose lengths add up to the length of that array (and a group
         # repeated under two keys)
@@ -353,6 +356,15 @@ def run_case(case, ctx):
         d = same(rr.value, exp, dtype=False)
         if d:
             ctx.violation('index_of_mismatch', case, d, feats)
+    # values with two trailing axes (one small matrix per spike): the mean of each cluster's matrices
+    if case['rot'] % 4 == 2:
+        k_ = len(ids_present)
+        arr3 = np.arange(n * k_ * 2, dtype=np.float64).reshape(n, k_, 2) * 0.25 - 1
+        rr = call(pa.grouped_mean, arr3, sc)
+        exp3 = np.stack([arr3[np.asarray(sc) == c].mean(axis=0) for c in ids_present])
+        if not rr.ok or same(rr.value, exp3, dtype=False, rtol=1e-12):
+            ctx.violation('grouped_mean_mismatch' if rr.ok else 'raised', case, 'grouped_mean of values of shape %r: %s' % (
+                arr3.shape, rr.exc if not rr.ok else same(rr.value, exp3, dtype=False, rtol=1e-12)), dict(feats, function='grouped_mean', ndim=3), tb=rr.tb)
     # the lookup ends with -1, as the library's own densifying code builds it (np.r_[channel_ids, -1]): -1 in the array is then
     # found at that position
     lk_m1 = np.r_[np.asarray(ids_present[::-1], dtype=np.int64), -1]
